@@ -71,6 +71,7 @@ enum SKind {
   S_ARR_STORE,   // lhs[e1] := e3   (flag = strong, k = esz)
   S_ARR_LOAD,    // lhs := a[e1]    (k = esz)
   S_ARR_ASSIGN,  // lhs := a (arrays)
+  S_ARR_STORE_RANGE, // lhs[e1..e2 step esz] := e3 (k = esz)
   S_CALL,        // lhss := callee(args)
   // regions / references
   S_REGION_INIT, // region lhs
@@ -165,6 +166,7 @@ inline std::string str(const Prog &p, const Stmt &s) {
   case S_ARR_STORE: return V(s.lhs) + "[" + str(p, s.e1) + "]:=" + str(p, s.e3) + (s.flag ? " (strong)" : "") + " sz" + std::to_string(s.k);
   case S_ARR_LOAD: return V(s.lhs) + ":=" + V(s.a) + "[" + str(p, s.e1) + "] sz" + std::to_string(s.k);
   case S_ARR_ASSIGN: return V(s.lhs) + ":=arr " + V(s.a);
+  case S_ARR_STORE_RANGE: return V(s.lhs) + "[" + str(p, s.e1) + ".." + str(p, s.e2) + "]:=" + str(p, s.e3) + " sz" + std::to_string(s.k);
   case S_CALL: {
     std::string r = "(";
     for (int v : s.lhss) r += V(v) + ",";
